@@ -48,6 +48,10 @@ class BasePoller(BaseComponent):
         self._read = []
         self._write = []
         self._targets = {}
+        # the channel each role of a descriptor was registered with: when
+        # one role is removed the target follows the one that remains
+        self._read_targets = {}
+        self._write_targets = {}
 
         self._ctrl_recv, self._ctrl_send = self._create_control_con()
 
@@ -105,22 +109,30 @@ class BasePoller(BaseComponent):
     def addReader(self, source, fd):
         channel = getattr(source, 'channel', '*')
         self._read.append(fd)
-        self._targets[fd] = channel
+        self._targets[fd] = self._read_targets[fd] = channel
 
     def addWriter(self, source, fd):
         channel = getattr(source, 'channel', '*')
         self._write.append(fd)
-        self._targets[fd] = channel
+        self._targets[fd] = self._write_targets[fd] = channel
 
     def removeReader(self, fd):
         if fd in self._read:
             self._read.remove(fd)
+        if fd not in self._read:
+            self._read_targets.pop(fd, None)
+            if fd in self._write and fd in self._write_targets:
+                self._targets[fd] = self._write_targets[fd]
         if not (fd in self._read or fd in self._write) and fd in self._targets:
             del self._targets[fd]
 
     def removeWriter(self, fd):
         if fd in self._write:
             self._write.remove(fd)
+        if fd not in self._write:
+            self._write_targets.pop(fd, None)
+            if fd in self._read and fd in self._read_targets:
+                self._targets[fd] = self._read_targets[fd]
         if not (fd in self._read or fd in self._write) and fd in self._targets:
             del self._targets[fd]
 
@@ -137,6 +149,8 @@ class BasePoller(BaseComponent):
             self._write.remove(fd)
         if fd in self._targets:
             del self._targets[fd]
+        self._read_targets.pop(fd, None)
+        self._write_targets.pop(fd, None)
 
     def getTarget(self, fd):
         return self._targets.get(fd, self.parent)
